@@ -27,8 +27,8 @@ MOD = "github.com/sourcegraph/zoekt"
 
 # files whose imports are re-pointed at explorer-owned shims: (file, {import path: (alias, shim pkg)})
 REWRITES = {
-    "search/sched.go": {"golang.org/x/sync/semaphore": ("semaphore", "vsema"), "time": ("time", "vtime")},
-    "cmd/zoekt-sourcegraph-indexserver/index_mutex.go": {"sync": ("sync", "vsync")},
+    "search/sched.go": {"golang.org/x/sync/semaphore": ("semaphore", "vsema"), "time": ("time", "vtime"), "?sync": ("sync", "vsync"), "?sync/atomic": ("atomic", "vatomic")},
+    "cmd/zoekt-sourcegraph-indexserver/index_mutex.go": {"?sync": ("sync", "vsync"), "?sync/atomic": ("atomic", "vatomic")},
 }
 try:
     with open(os.path.join(VERIF, "rewrites.json")) as f:
@@ -43,6 +43,7 @@ VIRTUAL_PKGS = {  # dir under /verif -> package dir under /repo/internal/verifsh
     "shim/vsema": "vsema",
     "shim/vtime": "vtime",
     "shim/vos": "vos",
+    "shim/vatomic": "vatomic",
     "ref": "ref",
     "gen": "gen",
 }
@@ -75,6 +76,8 @@ def rewrite_imports(src, mapping, relpath):
     for imp, (alias, shim) in mapping.items():
         if imp.startswith("@"):
             continue
+        optional = imp.startswith("?")  # "?path": rewrite the import only if the file has it
+        imp = imp.lstrip("?")
         pat = re.compile(r'^(\s*)(?:[A-Za-z_][A-Za-z0-9_]*\s+)?"' + re.escape(imp) + r'"\s*$', re.M)
         new, n = pat.subn(lambda m: '%s%s "%s/%s/%s"' % (m.group(1), alias, MOD, SHIMROOT, shim), out, count=1)
         if n != 1:
@@ -82,6 +85,8 @@ def rewrite_imports(src, mapping, relpath):
             pat2 = re.compile(r'^import\s+"' + re.escape(imp) + r'"\s*$', re.M)
             new, n = pat2.subn('import %s "%s/%s/%s"' % (alias, MOD, SHIMROOT, shim), out, count=1)
         if n != 1:
+            if optional:
+                continue
             raise SystemExit2("rewrite: import %r not found in %s" % (imp, relpath))
         out = new
     return out
